@@ -10,7 +10,7 @@ func init() {
 			"claim resets exactly the claimed position (or deletes it when it holds no shares) and truncates only via TruncateDecimal; the set of functions writing position and accumulator records.",
 		NotCovered:  []string{"claim = Σ growth × shares over a history as a number", "total shares = Σ position shares as an invariant over histories"},
 		Assumptions: []string{"osmoutils.MustSet/Get and the KV store are the effect primitives"},
-		MinObl:      40,
+		MinObl:      52,
 		Run:         runC15,
 	})
 }
